@@ -1697,7 +1697,7 @@ def cancel_crash_run(workload: str, j_sym: Any, k_sym: Any, max_k: int = 14) -> 
 def handler_stmt_race_run(prop: str, workload: str, j_sym: Any, k_sym: Any, pick_sym: Any, monitors: tuple[str, ...] = ("C02", "C06"),
                           compare: str = "reference", max_k: int = 90, a_pick_sym: Any = 0,
                           inject: Callable[[World], None] | None = None, post: Callable[[World, dict[str, Any], Any], tuple[str, Any] | None] | None = None,
-                          k2_sym: Any = None, pick2_sym: Any = 0) -> bool:
+                          k2_sym: Any = None, pick2_sym: Any = 0, wide: bool = False) -> bool:
     """Two workers, one pre-emption, every pair of handlers the run offers: the handler of the j-th
     delivered message (worker A) is stopped just before its k-th SQL statement and another
     deliverable message (the pick-th of those visible at that instant) is handled completely by
@@ -1705,7 +1705,8 @@ def handler_stmt_race_run(prop: str, workload: str, j_sym: Any, k_sym: Any, pick
     oldest deliverable messages at step j.  With ``inject`` a client request (signal, cancel) is
     accepted right before step j, so its handler is one of the two that race.  With ``k2_sym`` a
     third worker C handles yet another message completely just before B's k2-th statement (three
-    workers, two nested pre-emptions).  Real SQLite file; a position
+    workers, two nested pre-emptions).  ``wide``: A and B range over up to 6 deliverable messages
+    instead of the two oldest and the newest.  Real SQLite file; a position
     inside A's open write transaction is not enabled (B would wait for the commit) and slips to the
     next statement outside one.  j, k and the pick are symbolic."""
     with hx.Path("handler_stmt_race:%s:%s" % (prop, workload)) as P:
@@ -1762,7 +1763,7 @@ def handler_stmt_race_run(prop: str, workload: str, j_sym: Any, k_sym: Any, pick
                         state["done"] = True
                         state["at"] = state["n"]
                         state["sql"] = " ".join(sql.split()[:4])
-                        cand = vis[:2] + ([vis[-1]] if len(vis) > 2 else [])  # the two oldest and the newest (an injected request is the newest)
+                        cand = vis[:6] if wide else vis[:2] + ([vis[-1]] if len(vis) > 2 else [])  # the two oldest and the newest (an injected request is the newest); wide: up to 6
                         row = cand[hx.pick(pick_sym, len(cand))]
                         state["b"] = row["message_type"]
                         saved = (HOOKS.ctx, HOOKS.handler_base, w._in_deliver, HOOKS.on_statement)
@@ -1787,7 +1788,7 @@ def handler_stmt_race_run(prop: str, workload: str, j_sym: Any, k_sym: Any, pick
                         if inject is not None:
                             inject(w)
                             vis = visible()
-                        acand = vis[:2] + ([vis[-1]] if len(vis) > 2 else [])
+                        acand = vis[:6] if wide else vis[:2] + ([vis[-1]] if len(vis) > 2 else [])
                         arow = acand[hx.pick(a_pick_sym, len(acand))] if len(vis) > 1 else vis[0]  # A need not take the oldest message
                         state["a"] = arow["message_type"]
                         n_before = w.ledger.seq
